@@ -7,7 +7,10 @@ import pathlib
 
 
 def jdump(obj):
-    return json.dumps(obj, sort_keys=True, default=_default)
+    try:
+        return json.dumps(obj, sort_keys=True, default=_default)
+    except TypeError:
+        return json.dumps(obj, default=_default)
 
 
 def _default(o):
